@@ -424,6 +424,37 @@ crate::verif_host_stubs! { #[cfg_attr(kani, kani::unwind(9))] fn c19_write_lower
 crate::verif_host_stubs! { #[cfg_attr(kani, kani::unwind(9))] fn c19_write_lowered_len2_delivered() { #[cfg(kani)] stream_write_all_codes(2, false, true, 1); } }
 crate::verif_host_stubs! { #[cfg_attr(kani, kani::unwind(9))] fn c19_write_lowered_len2_cancelled() { #[cfg(kani)] stream_write_all_codes(2, false, true, 2); } }
 crate::verif_host_stubs! { #[cfg_attr(kani, kani::unwind(9))] fn c19_write_canonical_len0_immediate() { #[cfg(kani)] stream_write_all_codes(0, true, false, 0); } }
+/// a partial transfer that ended in COMPLETED or CANCELLED leaves the stream usable: the next write reaches the host
+#[cfg(kani)]
+fn stream_write_after_partial(kind: u32) {
+    reset();
+    let mut task = host::mock_task(0, true);
+    host::enter_task(&mut task);
+    let waker = host::counting_waker();
+    let mut cx = Context::from_waker(&waker);
+    let mut w = unsafe { RawStreamWriter::new(WH, MockS { canonical: true, lists: false }) };
+    st().write_answer = kind | (1 << 4);
+    {
+        let fut = w.write(items(2));
+        let mut fut = core::pin::pin!(fut);
+        match fut.as_mut().poll(&mut cx) {
+            Poll::Ready((status, buf)) => vassert!(status == StreamResult::Complete(1) && buf.remaining() == 1),
+            Poll::Pending => vassert!(false),
+        }
+    }
+    st().write_answer = COMPLETED | (1 << 4);
+    {
+        let fut = w.write(items(1));
+        let mut fut = core::pin::pin!(fut);
+        match fut.as_mut().poll(&mut cx) {
+            Poll::Ready((status, buf)) => vassert!(status == StreamResult::Complete(1) && buf.remaining() == 0, "C19: a stream whose reader is still there keeps transferring"),
+            Poll::Pending => vassert!(false),
+        }
+    }
+    vassert!(st().start_write == 2, "C19: the second write must reach the host");
+}
+crate::verif_host_stubs! { #[cfg_attr(kani, kani::unwind(9))] fn c19_write_after_partial_completed() { #[cfg(kani)] stream_write_after_partial(COMPLETED); } }
+crate::verif_host_stubs! { #[cfg_attr(kani, kani::unwind(9))] fn c19_write_after_partial_cancelled() { #[cfg(kani)] stream_write_after_partial(CANCELLED); } }
 crate::verif_host_stubs! { #[cfg_attr(kani, kani::unwind(9))] fn c19_write_after_peer_dropped() { #[cfg(kani)] stream_write_after_peer_dropped(); } }
 
 // ============================================================================ stream read
@@ -592,6 +623,35 @@ crate::verif_host_stubs! { #[cfg_attr(kani, kani::unwind(9))] fn c19_read_lowere
 crate::verif_host_stubs! { #[cfg_attr(kani, kani::unwind(9))] fn c19_read_lowered_delivered_completed_s2() { #[cfg(kani)] stream_read_codes(1, 2, false, 1, 0, 1); } }
 crate::verif_host_stubs! { #[cfg_attr(kani, kani::unwind(9))] fn c19_read_lowered_delivered_dropped_s2() { #[cfg(kani)] stream_read_codes(1, 2, false, 1, 1, 2); } }
 crate::verif_host_stubs! { #[cfg_attr(kani, kani::unwind(9))] fn c19_read_lowered_delivered_cancelledcode_s2() { #[cfg(kani)] stream_read_codes(1, 2, false, 1, 2, 3); } }
+#[cfg(kani)]
+fn stream_read_after_partial(kind: u32) {
+    reset();
+    let mut task = host::mock_task(0, true);
+    host::enter_task(&mut task);
+    let waker = host::counting_waker();
+    let mut cx = Context::from_waker(&waker);
+    let mut r = RawStreamReader::new(RH, MockS { canonical: true, lists: false });
+    st().read_answer = kind | (1 << 4);
+    {
+        let fut = r.read(Vec::with_capacity(2));
+        let mut fut = core::pin::pin!(fut);
+        match fut.as_mut().poll(&mut cx) {
+            Poll::Ready((status, buf)) => vassert!(status == StreamResult::Complete(1) && buf.len() == 1),
+            Poll::Pending => vassert!(false),
+        }
+    }
+    {
+        let fut = r.read(Vec::with_capacity(1));
+        let mut fut = core::pin::pin!(fut);
+        match fut.as_mut().poll(&mut cx) {
+            Poll::Ready((status, buf)) => vassert!(status == StreamResult::Complete(1) && buf.len() == 1 && buf[0] == 10, "C19: a stream whose writer is still there keeps transferring"),
+            Poll::Pending => vassert!(false),
+        }
+    }
+    vassert!(st().start_read == 2, "C19: the second read must reach the host");
+}
+crate::verif_host_stubs! { #[cfg_attr(kani, kani::unwind(9))] fn c19_read_after_partial_completed() { #[cfg(kani)] stream_read_after_partial(COMPLETED); } }
+crate::verif_host_stubs! { #[cfg_attr(kani, kani::unwind(9))] fn c19_read_after_partial_cancelled() { #[cfg(kani)] stream_read_after_partial(CANCELLED); } }
 crate::verif_host_stubs! { #[cfg_attr(kani, kani::unwind(9))] fn c19_read_after_peer_dropped() { #[cfg(kani)] stream_read_after_peer_dropped(); } }
 
 /// taking the handle out of a reader (to pass it on) means the reader's drop releases nothing
